@@ -16,6 +16,7 @@ import SonicModel.Impl.Borrow
 import SonicModel.Impl.Depth
 import SonicModel.Thm.C02
 import SonicModel.Lemmas.SpecBound
+import SonicModel.Lemmas.StrInplaceProof
 namespace Sonic.Thm.C01
 open Sonic Depth
 
@@ -140,6 +141,31 @@ theorem old_readers_dangle (c : Borrow.Carrier) :
       (∃ n, n ≤ 24 ∧ (c = .bytes n ∨ c = .faststr n)) ∨ (∃ n, c = .ownedLazy n) := by
   cases c <;> simp [Borrow.keyHome, Borrow.readerBufferOld, Borrow.handleShares, Borrow.inlineCap]
   all_goals (first | omega | (constructor <;> intro h <;> omega))
+
+/-! ### the unchecked in-place string decoder stays inside its buffer -/
+
+/-- **no load and no store outside the padded buffer** (fourth session): `parse_string_inplace` reads 32-byte blocks and
+    `\u` escapes without any bounds check and writes into the buffer it reads; in the model every such access is checked and
+    an access outside the buffer is the outcome `fault` (`Impl/StrInplace.lean`).  On the copy `t ++ x"x ++ 61 zero bytes`
+    that `parse_with_padding` makes, started anywhere in the text, strict or lossy, that outcome does not occur — and the
+    function terminates.  (The statement about WHAT it computes is `Thm/C09.inplace_decoder_on_padded_text`; the tie to the
+    real function is the hook `verif::parse_string_inplace`, compared on every C09 case.) -/
+theorem inplace_decoder_stays_inside_its_buffer (lossy : Bool) (t : Buf) (i : Nat) (hi : i ≤ t.size) :
+    (match StrIn.run lossy (StrIn.pad t) i with
+     | .fault => true
+     | .fuel => true
+     | _ => false) = false := by
+  have h := StrIn.run_spec lossy t i hi
+  generalize StrIn.run lossy (StrIn.pad t) i = r at h ⊢
+  cases r with
+  | ok mem cnt e => rfl
+  | err c => rfl
+  | fault => exact h.elim
+  | fuel => exact h.elim
+
+/-- … and without the padding it does not stay inside: the bare text `"abc` -/
+theorem unpadded_inplace_decoder_leaves_its_buffer :
+    (match StrIn.run false #[34, 97, 98, 99] 1 with | .fault => true | _ => false) = true := by decide +kernel
 
 /-! non-vacuity -/
 example : Borrow.keyHome true (.faststr 7) = .reader := by decide
